@@ -430,7 +430,7 @@ def gen_pre(rs, cplx, mkind):
     }
 
 
-def gen_freq(rs, sysd, allow_zero):
+def gen_freq(rs, sysd, allow_zero, twosided=False):
     nf = int(rs.integers(1, 5))
     fr = list(rs.uniform(0.1, 40.0, nf))
     k = _full(sysd["k"], np.shape(sysd["k"])[0])
@@ -444,6 +444,10 @@ def gen_freq(rs, sysd, allow_zero):
         fr[int(rs.integers(0, nf))] = 0.0
     if nf >= 2 and rs.random() < 0.25:
         fr[1] = fr[0]  # a frequency may be requested more than once
+    if twosided and rs.random() < 0.2:
+        # a two-sided spectrum in FFT order: [0, f1, ..., -f2, -f1]; the equations hold for W of either sign
+        pos = sorted(f for f in fr if f > 0)
+        return np.array(([0.0] if allow_zero else []) + pos + [-f for f in reversed(pos)])
     return np.array(sorted(fr))
 
 
@@ -772,7 +776,7 @@ def correspondence(ctx):
             if solver == "fd" and sysd["pre_eig"]:
                 continue
             has_rb = sysd["pre_eig"] and sysd.get("free") or (sysd["cls"] and "rb" in sysd["cls"])
-            freq = gen_freq(rs, sysd, allow_zero=(solver == "su" or not has_rb))
+            freq = gen_freq(rs, sysd, allow_zero=(solver == "su" or not has_rb), twosided=True)
             n = np.shape(sysd["k"])[0]
             F = rs.standard_normal((n, freq.size)) + 1j * rs.standard_normal((n, freq.size))
             fvar = None
@@ -1595,6 +1599,52 @@ def _other(spec):
     return o
 
 
+def _oracle_cdf_entry(sysd, rs):
+    """`SolveCDF(...)` / `SolveUnc(..., cd_as_force=True)` are documented to be plain SolveUnc unless damping is the ONLY
+    coupled matrix (then fsolve raises NotImplementedError): for a system whose damping AND mass or stiffness are coupled
+    their fsolve must solve the dynamic-stiffness equation like FreqDirect"""
+    from pyyeti import ode
+    m, b, k = sysd["m"], sysd["b"], sysd["k"]
+    if np.ndim(b) != 2 or not (np.ndim(k) == 2 or (m is not None and np.ndim(m) == 2)):
+        return []
+    offd = lambda a: a is not None and np.ndim(a) == 2 and np.any(a - np.diag(np.diag(a)))
+    if not offd(b) or not (offd(k) or offd(m)):
+        return []
+    n = b.shape[0]
+    freq = np.sort(rs.uniform(0.2, 30.0, 3))
+    F = rs.standard_normal((n, 3)) + 1j * rs.standard_normal((n, 3))
+    M = np.eye(n) if m is None else (np.diag(m) if np.ndim(m) == 1 else np.asarray(m))
+    fails = []
+    inp = {"kind": "cdf-entry", "m": None if m is None else np.asarray(m).tolist(), "b": np.asarray(b).tolist(),
+           "k": np.asarray(k).tolist(), "freq": freq.tolist(),
+           "F": [[[float(z.real), float(z.imag)] for z in row] for row in F]}
+    want = np.empty((n, 3), complex)
+    for j, f in enumerate(freq):
+        W = 2 * np.pi * f
+        Z = -W * W * M + 1j * W * np.asarray(b) + np.asarray(k)
+        if np.linalg.cond(Z) > 1e8:
+            return []
+        want[:, j] = np.linalg.solve(Z, F[:, j])
+    sc = np.abs(want).max() + 1e-300
+    for name, mk in (("SolveUnc-cd_as_force", lambda: ode.SolveUnc(m, b, k, rb=[], cd_as_force=True)),
+                     ("SolveCDF", lambda: ode.SolveCDF(m, b, k, rb=[]))):
+        try:
+            with warnings.catch_warnings():
+                warnings.simplefilter("ignore")
+                d = mk().fsolve(F, freq).d
+        except Exception as e:  # noqa: BLE001
+            fails.append({"family": "cdf-entry-coupled-system-raises-" + name, "what": name + " (damping and mass/stiffness "
+                          "coupled) does not solve in the frequency domain", "input": inp, "observed": repr(e)[:120],
+                          "required": "the FreqDirect solution"})
+            continue
+        e = float(np.abs(d - want).max() / sc)
+        if not e <= 1e-7:
+            fails.append({"family": "cdf-entry-coupled-system-" + name + "-residual",
+                          "what": name + ".fsolve on a system whose damping and mass/stiffness are coupled does not solve "
+                          "(-W^2 M + iW B + K) d = F", "input": inp, "observed": e, "required": "<= 1e-7"})
+    return fails
+
+
 def search(ctx, hints):
     rs = ctx.np_rng(5)
     specs = []
@@ -1624,7 +1674,7 @@ def search(ctx, hints):
             if solver == "fd" and sysd["pre_eig"]:
                 continue
             has_rb = sysd["pre_eig"] and sysd.get("free") or (sysd["cls"] and "rb" in sysd["cls"])
-            freq = gen_freq(rs, sysd, allow_zero=(solver == "su" or not has_rb))
+            freq = gen_freq(rs, sysd, allow_zero=(solver == "su" or not has_rb), twosided=True)
             F = rs.standard_normal((n, freq.size)) + 1j * rs.standard_normal((n, freq.size))
             fvar = None
             if si % 5 == 3:
@@ -1658,6 +1708,12 @@ def search(ctx, hints):
         if "drm" not in spec and spec["solver"] == "su" and ctx.rng.random() < 0.12:
             ctx.count("oracle-call-sequences")
             if add(_oracle_sequence(spec, rs)):
+                return
+    for sysd in systems:
+        if not sysd.get("unc", True) and not sysd["pre_eig"] and not sysd.get("cplx") and not (sysd["cls"] and "rb" in sysd["cls"]) \
+                and not sysd.get("rf"):
+            ctx.count("oracle-cdf-entry")
+            if add(_oracle_cdf_entry(sysd, rs)):
                 return
     cands = [s for s in systems if not s["boundary"]]
     for _ in range(ctx.pick(60, 400)):
